@@ -1,1 +1,916 @@
-// placeholder
+//! RefVm — independent reference interpreter (DESIGN §3.1, Appendix A).
+//!
+//! Written from `asm.yml` and the statements of C05, C07–C12. Shares no code with `crates/vm`.
+
+use super::ops::MOp;
+use serde::{Deserialize, Serialize};
+use std::cell::Cell;
+
+pub const S: usize = 4096;
+pub const M: usize = 10240;
+
+#[derive(Clone, Debug, PartialEq, Eq, Hash, Serialize, Deserialize)]
+pub enum RSlot {
+    Up { counter: i64, limit: i64, start: usize },
+    Down { counter: i64, start: usize },
+}
+
+#[derive(Clone, Debug, Default, PartialEq, Eq, Hash, Serialize, Deserialize)]
+pub struct MState {
+    pub pc: usize,
+    pub stack: Vec<i64>,
+    pub memory: Vec<i64>,
+    pub repeat: Vec<RSlot>,
+}
+
+#[derive(Clone, Debug, Default, PartialEq, Eq, Hash, Serialize, Deserialize)]
+pub struct MSolution {
+    pub contract: [u8; 32],
+    pub predicate: [u8; 32],
+    pub data: Vec<Vec<i64>>,
+    pub mutations: Vec<(Vec<i64>, Vec<i64>)>,
+}
+
+/// State as the model sees it.
+pub trait ModelState {
+    fn read(&self, post: bool, contract: &[u8; 32], key: &[i64], count: usize) -> Result<Vec<Vec<i64>>, String>;
+}
+
+pub struct NoState;
+impl ModelState for NoState {
+    fn read(&self, _: bool, _: &[u8; 32], _: &[i64], _: usize) -> Result<Vec<Vec<i64>>, String> {
+        Ok(vec![])
+    }
+}
+
+pub struct Env<'a> {
+    pub solutions: &'a [MSolution],
+    pub index: usize,
+    pub state: &'a dyn ModelState,
+    pub cost: &'a dyn Fn(&MOp) -> u64,
+    /// Remaining executed-op budget shared by parent and children; `OverBudget` when exhausted.
+    pub steps_left: Cell<u64>,
+    pub breadth_cap: i64,
+}
+
+#[derive(Clone, Debug, PartialEq, Eq)]
+pub enum ErrClass {
+    OutOfGas { spent: u64, op_gas: u64 },
+    /// Out of gas somewhere inside / at the join of a Compute.
+    OutOfGasInCompute,
+    StateRead(String),
+    /// Any other error; the kind is not part of the comparison.
+    Other,
+    /// Error, but several root causes are possible (e.g. one child out of gas, another failing otherwise).
+    Any,
+}
+
+#[derive(Clone, Copy, Debug, PartialEq, Eq)]
+pub enum Stop {
+    /// Program counter left the program.
+    End,
+    Halt,
+    ComputeEnd,
+}
+
+#[derive(Clone, Debug, PartialEq, Eq)]
+pub enum Event {
+    Continue,
+    Done(Stop),
+    Failed { index: usize, class: ErrClass },
+    /// Model state was advanced as in the "succeeds" alternative; an error is equally acceptable.
+    EitherErrOr(Box<Event>),
+    Unspec(&'static str),
+    OverBudget,
+    ExcludedBreadth,
+}
+
+#[derive(Clone, Debug, PartialEq, Eq)]
+pub enum RunResult {
+    Ok { gas: u64, stop: Stop },
+    Err { index: usize, class: ErrClass },
+    Unspec(&'static str),
+    OverBudget,
+    ExcludedBreadth,
+}
+
+enum Flow {
+    Next,
+    Jump(usize),
+    Halt,
+}
+
+enum Simple {
+    Ok(Flow),
+    Err(ErrClass),
+    EitherErrOr(Flow),
+}
+
+fn e<T>() -> Result<T, ErrClass> {
+    Err(ErrClass::Other)
+}
+
+pub struct Machine<'a> {
+    pub prog: &'a [MOp],
+    pub st: MState,
+    pub env: &'a Env<'a>,
+    pub pmem: Option<&'a [i64]>,
+    pub gas: u128,
+    pub limit: u128,
+    pub in_child: bool,
+    /// Highest index of an executed op (None if nothing executed).
+    pub max_visited: Option<usize>,
+    /// Number of ops executed by this machine (children excluded).
+    pub executed: u64,
+    /// Number of ops executed including children.
+    pub executed_total: u64,
+}
+
+fn pop(s: &mut Vec<i64>) -> Result<i64, ErrClass> {
+    s.pop().ok_or(ErrClass::Other)
+}
+
+fn push(s: &mut Vec<i64>, w: i64) -> Result<(), ErrClass> {
+    if s.len() >= S {
+        return e();
+    }
+    s.push(w);
+    Ok(())
+}
+
+fn push_all(s: &mut Vec<i64>, ws: &[i64]) -> Result<(), ErrClass> {
+    if s.len() + ws.len() > S {
+        return e();
+    }
+    s.extend_from_slice(ws);
+    Ok(())
+}
+
+fn to_len(w: i64) -> Result<usize, ErrClass> {
+    if w < 0 {
+        e()
+    } else {
+        Ok(w as usize)
+    }
+}
+
+fn bool_word(w: i64) -> Result<bool, ErrClass> {
+    match w {
+        0 => Ok(false),
+        1 => Ok(true),
+        _ => e(),
+    }
+}
+
+/// Pop `n` words (top n) returning them in stack order.
+fn pop_n(s: &mut Vec<i64>, n: usize) -> Result<Vec<i64>, ErrClass> {
+    if n > s.len() {
+        return e();
+    }
+    Ok(s.split_off(s.len() - n))
+}
+
+pub fn words_to_bytes(ws: &[i64]) -> Vec<u8> {
+    let mut out = Vec::with_capacity(ws.len() * 8);
+    for w in ws {
+        let u = *w as u64;
+        for i in (0..8).rev() {
+            out.push((u >> (8 * i)) as u8);
+        }
+    }
+    out
+}
+
+pub fn bytes_to_words(bs: &[u8]) -> Vec<i64> {
+    assert!(bs.len() % 8 == 0);
+    bs.chunks(8)
+        .map(|c| {
+            let mut u = 0u64;
+            for b in c {
+                u = (u << 8) | *b as u64;
+            }
+            u as i64
+        })
+        .collect()
+}
+
+/// Pop a byte string: `[data words.., byte_len]`.
+fn pop_bytes(s: &mut Vec<i64>) -> Result<Vec<u8>, ErrClass> {
+    let n = to_len(pop(s)?)?;
+    let nwords = n / 8 + usize::from(n % 8 != 0);
+    let ws = pop_n(s, nwords)?;
+    let mut b = words_to_bytes(&ws);
+    b.truncate(n);
+    Ok(b)
+}
+
+fn parse_set(ws: &[i64]) -> Result<std::collections::BTreeSet<Vec<i64>>, ErrClass> {
+    let mut out = std::collections::BTreeSet::new();
+    let mut rest = ws;
+    while let Some((len, r)) = rest.split_last() {
+        let len = to_len(*len)?;
+        if len > r.len() {
+            return e();
+        }
+        let (r2, elem) = r.split_at(r.len() - len);
+        out.insert(elem.to_vec());
+        rest = r2;
+    }
+    Ok(out)
+}
+
+pub fn predicate_exists_hash(sol: &MSolution) -> [u8; 32] {
+    let mut words: Vec<i64> = Vec::new();
+    for slot in &sol.data {
+        words.push(slot.len() as i64);
+        words.extend_from_slice(slot);
+    }
+    words.extend(bytes_to_words(&sol.contract));
+    words.extend(bytes_to_words(&sol.predicate));
+    essential_hash::hash_bytes(&words_to_bytes(&words))
+}
+
+impl<'a> Machine<'a> {
+    pub fn new(prog: &'a [MOp], st: MState, env: &'a Env<'a>, limit: u64) -> Self {
+        Machine {
+            prog,
+            st,
+            env,
+            pmem: None,
+            gas: 0,
+            limit: limit as u128,
+            in_child: false,
+            max_visited: None,
+            executed: 0,
+            executed_total: 0,
+        }
+    }
+
+    /// Run to completion.
+    pub fn run(&mut self) -> RunResult {
+        loop {
+            match self.step() {
+                Event::Continue => {}
+                Event::Done(stop) => {
+                    return RunResult::Ok {
+                        gas: self.gas as u64,
+                        stop,
+                    }
+                }
+                Event::Failed { index, class } => return RunResult::Err { index, class },
+                Event::EitherErrOr(_) => return RunResult::Unspec("two-valued expectation inside a whole-program run"),
+                Event::Unspec(r) => return RunResult::Unspec(r),
+                Event::OverBudget => return RunResult::OverBudget,
+                Event::ExcludedBreadth => return RunResult::ExcludedBreadth,
+            }
+        }
+    }
+
+    /// Peek: the op that the next `step` executes.
+    pub fn next_op(&self) -> Option<MOp> {
+        self.prog.get(self.st.pc).copied()
+    }
+
+    pub fn step(&mut self) -> Event {
+        let pc = self.st.pc;
+        let Some(op) = self.prog.get(pc).copied() else {
+            return Event::Done(Stop::End);
+        };
+        if self.env.steps_left.get() == 0 {
+            return Event::OverBudget;
+        }
+        self.env.steps_left.set(self.env.steps_left.get() - 1);
+        let c = (self.env.cost)(&op) as u128;
+        if self.gas + c > self.limit || self.gas + c > u64::MAX as u128 {
+            return Event::Failed {
+                index: pc,
+                class: ErrClass::OutOfGas {
+                    spent: self.gas as u64,
+                    op_gas: c as u64,
+                },
+            };
+        }
+        self.gas += c;
+        self.executed += 1;
+        self.executed_total += 1;
+        self.max_visited = Some(self.max_visited.map_or(pc, |m| m.max(pc)));
+        match op {
+            MOp::COM => self.compute(pc),
+            MOp::COME => {
+                if self.in_child {
+                    self.st.pc = pc + 1;
+                    Event::Done(Stop::ComputeEnd)
+                } else {
+                    Event::Unspec("ComputeEnd outside a compute context")
+                }
+            }
+            _ => match self.simple(op, pc) {
+                Simple::Ok(f) => self.flow(f, pc),
+                Simple::Err(class) => Event::Failed { index: pc, class },
+                Simple::EitherErrOr(f) => Event::EitherErrOr(Box::new(self.flow(f, pc))),
+            },
+        }
+    }
+
+    fn flow(&mut self, f: Flow, pc: usize) -> Event {
+        match f {
+            Flow::Next => {
+                self.st.pc = pc + 1;
+                Event::Continue
+            }
+            Flow::Jump(t) => {
+                self.st.pc = t;
+                Event::Continue
+            }
+            Flow::Halt => Event::Done(Stop::Halt),
+        }
+    }
+
+    fn compute(&mut self, pc: usize) -> Event {
+        let Some(breadth) = self.st.stack.pop() else {
+            return Event::Failed { index: pc, class: ErrClass::Other };
+        };
+        if breadth < 1 || self.in_child {
+            return Event::Failed { index: pc, class: ErrClass::Other };
+        }
+        if breadth > self.env.breadth_cap {
+            return Event::ExcludedBreadth;
+        }
+        let child_limit = self.limit - self.gas;
+        let parent_mem = self.st.memory.clone();
+        let mut mems: Vec<Vec<i64>> = Vec::new();
+        let mut gas_sum: u128 = 0;
+        let mut max_pc = pc;
+        let mut gas_fail = false;
+        let mut other_fail = false;
+        let mut unspec: Option<&'static str> = None;
+        for i in 0..breadth {
+            let mut stack = self.st.stack.clone();
+            stack.push(i); // always fits: the breadth word was just popped
+            let mut child = Machine {
+                prog: self.prog,
+                st: MState {
+                    pc: pc + 1,
+                    stack,
+                    memory: Vec::new(),
+                    repeat: self.st.repeat.clone(),
+                },
+                env: self.env,
+                pmem: Some(&parent_mem),
+                gas: 0,
+                limit: child_limit,
+                in_child: true,
+                max_visited: None,
+                executed: 0,
+                executed_total: 0,
+            };
+            let r = child.run();
+            self.executed_total += child.executed_total;
+            match r {
+                RunResult::Ok { gas, .. } => {
+                    gas_sum += gas as u128;
+                    let f = child.st.pc;
+                    if let Some(mv) = child.max_visited {
+                        if f < mv {
+                            unspec = Some("compute child ended behind a position it had visited");
+                        }
+                    }
+                    max_pc = max_pc.max(f);
+                    mems.push(child.st.memory);
+                }
+                RunResult::Err { class, .. } => match class {
+                    ErrClass::OutOfGas { .. } | ErrClass::OutOfGasInCompute => gas_fail = true,
+                    _ => other_fail = true,
+                },
+                RunResult::Unspec(r) => unspec = Some(r),
+                RunResult::OverBudget => return Event::OverBudget,
+                RunResult::ExcludedBreadth => return Event::ExcludedBreadth,
+            }
+        }
+        if other_fail || gas_fail {
+            // A failing child fails the parent whatever else is unspecified.
+            let class = match (gas_fail, other_fail) {
+                (true, false) => ErrClass::OutOfGasInCompute,
+                (false, true) => ErrClass::Other,
+                _ => ErrClass::Any,
+            };
+            // If the children's total also exceeds the budget the failure may be reported as out-of-gas.
+            let class = if gas_sum > child_limit && class == ErrClass::Other { ErrClass::Any } else { class };
+            return Event::Failed { index: pc, class };
+        }
+        if let Some(r) = unspec {
+            return Event::Unspec(r);
+        }
+        let total_mem: usize = mems.iter().map(|m| m.len()).sum();
+        let gas_over = gas_sum > child_limit;
+        let mem_over = self.st.memory.len() + total_mem > M;
+        if gas_over || mem_over {
+            let class = match (gas_over, mem_over) {
+                (true, false) => ErrClass::OutOfGasInCompute,
+                (false, true) => ErrClass::Other,
+                _ => ErrClass::Any,
+            };
+            return Event::Failed { index: pc, class };
+        }
+        for m in mems {
+            self.st.memory.extend_from_slice(&m);
+        }
+        self.gas += gas_sum;
+        self.st.pc = max_pc;
+        Event::Continue
+    }
+
+    fn simple(&mut self, op: MOp, pc: usize) -> Simple {
+        match self.simple_inner(op, pc) {
+            Ok(s) => s,
+            Err(class) => Simple::Err(class),
+        }
+    }
+
+    fn simple_inner(&mut self, op: MOp, pc: usize) -> Result<Simple, ErrClass> {
+        let env = self.env;
+        let pmem = self.pmem;
+        let st = &mut self.st;
+        let s = &mut st.stack;
+        let next = Ok(Simple::Ok(Flow::Next));
+        match op {
+            // ---------------- Stack ----------------
+            MOp::PUSH(w) => push(s, w)?,
+            MOp::POP => {
+                pop(s)?;
+            }
+            MOp::DUP => {
+                let a = pop(s)?;
+                push(s, a)?;
+                push(s, a)?;
+            }
+            MOp::DUPF => {
+                let i = to_len(pop(s)?)?;
+                if i >= s.len() {
+                    return e();
+                }
+                let w = s[s.len() - 1 - i];
+                push(s, w)?;
+            }
+            MOp::SWAP => {
+                let b = pop(s)?;
+                let a = pop(s)?;
+                push(s, b)?;
+                push(s, a)?;
+            }
+            MOp::SWAPI => {
+                let i = pop(s)?;
+                if s.is_empty() {
+                    return e();
+                }
+                let i = to_len(i)?;
+                let top = s.len() - 1;
+                if i > top {
+                    return e();
+                }
+                s.swap(top, top - i);
+            }
+            MOp::SEL => {
+                let c = pop(s)?;
+                let b = pop(s)?;
+                let a = pop(s)?;
+                let c = bool_word(c)?;
+                push(s, if c { b } else { a })?;
+            }
+            MOp::SLTR => {
+                let c = bool_word(pop(s)?)?;
+                let n = to_len(pop(s)?)?;
+                if n != 0 {
+                    let two = n.checked_mul(2).ok_or(ErrClass::Other)?;
+                    if two > s.len() {
+                        return e();
+                    }
+                    let top = pop_n(s, n)?;
+                    let below = pop_n(s, n)?;
+                    s.extend_from_slice(if c { &top } else { &below });
+                }
+            }
+            MOp::REP => {
+                let up = pop(s)?;
+                let n = pop(s)?;
+                let up = bool_word(up)?;
+                if st.repeat.len() >= S {
+                    return e();
+                }
+                st.repeat.push(if up {
+                    RSlot::Up { counter: 0, limit: n, start: pc + 1 }
+                } else {
+                    RSlot::Down { counter: n, start: pc + 1 }
+                });
+            }
+            MOp::REPE => {
+                let Some(slot) = st.repeat.last_mut() else { return e() };
+                match slot {
+                    RSlot::Up { counter, limit, start } => {
+                        // the body has run for counter = 0..=counter; it runs max(limit,1) times in total
+                        if (*counter as i128) >= (*limit as i128) - 1 {
+                            st.repeat.pop();
+                        } else {
+                            *counter += 1;
+                            let t = *start;
+                            return Ok(Simple::Ok(Flow::Jump(t)));
+                        }
+                    }
+                    RSlot::Down { counter, start } => {
+                        if *counter <= 1 {
+                            st.repeat.pop();
+                        } else {
+                            *counter -= 1;
+                            let t = *start;
+                            return Ok(Simple::Ok(Flow::Jump(t)));
+                        }
+                    }
+                }
+            }
+            MOp::RES => {
+                let n = to_len(pop(s)?)?;
+                let start = s.len();
+                if start.checked_add(n).ok_or(ErrClass::Other)? + 1 > S {
+                    return e();
+                }
+                s.resize(start + n, 0);
+                s.push(start as i64);
+            }
+            MOp::LODS => {
+                let i = to_len(pop(s)?)?;
+                if i >= s.len() {
+                    return e();
+                }
+                let w = s[i];
+                push(s, w)?;
+            }
+            MOp::STOS => {
+                let i = pop(s)?;
+                let v = pop(s)?;
+                let i = to_len(i)?;
+                if i >= s.len() {
+                    return e();
+                }
+                s[i] = v;
+            }
+            MOp::DROP => {
+                let n = to_len(pop(s)?)?;
+                pop_n(s, n)?;
+            }
+            // ---------------- Pred ----------------
+            MOp::EQ | MOp::GT | MOp::LT | MOp::GTE | MOp::LTE | MOp::AND | MOp::OR | MOp::BAND | MOp::BOR => {
+                let b = pop(s)?;
+                let a = pop(s)?;
+                let r = match op {
+                    MOp::EQ => (a == b) as i64,
+                    MOp::GT => (a > b) as i64,
+                    MOp::LT => (a < b) as i64,
+                    MOp::GTE => (a >= b) as i64,
+                    MOp::LTE => (a <= b) as i64,
+                    MOp::AND => (a != 0 && b != 0) as i64,
+                    MOp::OR => (a != 0 || b != 0) as i64,
+                    MOp::BAND => a & b,
+                    MOp::BOR => a | b,
+                    _ => unreachable!(),
+                };
+                push(s, r)?;
+            }
+            MOp::NOT => {
+                let a = pop(s)?;
+                push(s, (a == 0) as i64)?;
+            }
+            MOp::EQRA => {
+                let n = pop(s)?;
+                if n == 0 {
+                    push(s, 1)?;
+                } else {
+                    let n = to_len(n)?;
+                    let two = n.checked_mul(2).ok_or(ErrClass::Other)?;
+                    if two > s.len() {
+                        return e();
+                    }
+                    let b = pop_n(s, n)?;
+                    let a = pop_n(s, n)?;
+                    push(s, (a == b) as i64)?;
+                }
+            }
+            MOp::EQST => {
+                let nr = to_len(pop(s)?)?;
+                let rhs = pop_n(s, nr)?;
+                let nl = to_len(pop(s)?)?;
+                let lhs = pop_n(s, nl)?;
+                let l = parse_set(&lhs)?;
+                let r = parse_set(&rhs)?;
+                push(s, (l == r) as i64)?;
+            }
+            // ---------------- Alu ----------------
+            MOp::ADD | MOp::SUB | MOp::MUL => {
+                let b = pop(s)? as i128;
+                let a = pop(s)? as i128;
+                let r = match op {
+                    MOp::ADD => a + b,
+                    MOp::SUB => a - b,
+                    _ => a * b,
+                };
+                if r < i64::MIN as i128 || r > i64::MAX as i128 {
+                    return e();
+                }
+                push(s, r as i64)?;
+            }
+            MOp::DIV | MOp::MOD => {
+                let b = pop(s)?;
+                let a = pop(s)?;
+                if b == 0 {
+                    return e();
+                }
+                let (a, b) = (a as i128, b as i128);
+                // truncating division
+                let q = a / b;
+                let r = a - q * b;
+                if op == MOp::DIV {
+                    if q > i64::MAX as i128 {
+                        return e();
+                    }
+                    push(s, q as i64)?;
+                } else {
+                    push(s, r as i64)?;
+                    if a == i64::MIN as i128 && b == -1 {
+                        // mathematically 0; refusing it is accepted too
+                        return Ok(Simple::EitherErrOr(Flow::Next));
+                    }
+                }
+            }
+            MOp::SHL | MOp::SHR | MOp::SHRI => {
+                let b = pop(s)?;
+                let a = pop(s)?;
+                if !(0..=63).contains(&b) {
+                    return e();
+                }
+                let r = match op {
+                    MOp::SHL => ((a as u64) << b) as i64,
+                    MOp::SHR => ((a as u64) >> b) as i64,
+                    _ => {
+                        // arithmetic: floor division by 2^b
+                        let d = 1i128 << b;
+                        (a as i128).div_euclid(d) as i64
+                    }
+                };
+                push(s, r)?;
+            }
+            // ---------------- Access ----------------
+            MOp::THIS | MOp::THISC => {
+                let sol = &env.solutions[env.index];
+                let bytes = if op == MOp::THIS { &sol.predicate } else { &sol.contract };
+                push_all(s, &bytes_to_words(bytes))?;
+            }
+            MOp::REPC => {
+                let c = match st.repeat.last() {
+                    Some(RSlot::Up { counter, .. }) | Some(RSlot::Down { counter, .. }) => *counter,
+                    None => return e(),
+                };
+                push(s, c)?;
+            }
+            MOp::DATA => {
+                let n = pop(s)?;
+                let v = pop(s)?;
+                let slot = pop(s)?;
+                let (n, v, slot) = (to_len(n)?, to_len(v)?, to_len(slot)?);
+                let data = &env.solutions[env.index].data;
+                let Some(sl) = data.get(slot) else { return e() };
+                let end = v.checked_add(n).ok_or(ErrClass::Other)?;
+                if end > sl.len() {
+                    return e();
+                }
+                push_all(s, &sl[v..end])?;
+            }
+            MOp::DLEN => {
+                let slot = to_len(pop(s)?)?;
+                let data = &env.solutions[env.index].data;
+                let Some(sl) = data.get(slot) else { return e() };
+                push(s, sl.len() as i64)?;
+            }
+            MOp::DSLT => {
+                push(s, env.solutions[env.index].data.len() as i64)?;
+            }
+            MOp::PEX => {
+                let h = pop_n(s, 4)?;
+                let hb = words_to_bytes(&h);
+                let found = env.solutions.iter().any(|sol| predicate_exists_hash(sol)[..] == hb[..]);
+                push(s, found as i64)?;
+            }
+            // ---------------- Crypto ----------------
+            MOp::SHA2 => {
+                let data = pop_bytes(s)?;
+                let h = essential_hash::hash_bytes(&data);
+                push_all(s, &bytes_to_words(&h))?;
+            }
+            MOp::VRFYED => {
+                let key = pop_n(s, 4)?;
+                let sig = pop_n(s, 8)?;
+                let data = pop_bytes(s)?;
+                let kb: [u8; 32] = words_to_bytes(&key).try_into().unwrap();
+                let sb: [u8; 64] = words_to_bytes(&sig).try_into().unwrap();
+                use ed25519_dalek::Verifier;
+                match ed25519_dalek::VerifyingKey::from_bytes(&kb) {
+                    Ok(vk) => {
+                        let ok = vk.verify(&data, &ed25519_dalek::Signature::from_bytes(&sb)).is_ok();
+                        push(s, ok as i64)?;
+                    }
+                    Err(_) => {
+                        push(s, 0)?;
+                        return Ok(Simple::EitherErrOr(Flow::Next));
+                    }
+                }
+            }
+            MOp::RSECP => {
+                let id = pop(s)?;
+                let sig = pop_n(s, 8)?;
+                let digest = pop_n(s, 4)?;
+                let sb: [u8; 64] = words_to_bytes(&sig).try_into().unwrap();
+                let db: [u8; 32] = words_to_bytes(&digest).try_into().unwrap();
+                let malformed = |s: &mut Vec<i64>| -> Result<Simple, ErrClass> {
+                    push_all(s, &[0; 5])?;
+                    Ok(Simple::EitherErrOr(Flow::Next))
+                };
+                if !(0..=3).contains(&id) {
+                    return malformed(s);
+                }
+                use essential_sign::secp256k1::ecdsa::{RecoverableSignature, RecoveryId};
+                let rid = RecoveryId::try_from(id as i32).map_err(|_| ErrClass::Other)?;
+                if RecoverableSignature::from_compact(&sb, rid).is_err() {
+                    // r or s not below the group order: malformed encoding
+                    return malformed(s);
+                }
+                let sig = essential_types::Signature(sb, id as u8);
+                match essential_sign::recover_hash(db, &sig) {
+                    Ok(pk) => push_all(s, &essential_sign::encode::public_key(&pk))?,
+                    Err(_) => push_all(s, &[0; 5])?,
+                }
+            }
+            // ---------------- TotalControlFlow ----------------
+            MOp::HLT => return Ok(Simple::Ok(Flow::Halt)),
+            MOp::HLTIF => {
+                if bool_word(pop(s)?)? {
+                    return Ok(Simple::Ok(Flow::Halt));
+                }
+            }
+            MOp::JMPIF => {
+                let c = pop(s)?;
+                let d = pop(s)?;
+                let c = bool_word(c)?;
+                if c {
+                    if d == 0 {
+                        return e();
+                    }
+                    let t = pc as i128 + d as i128;
+                    if t < 0 || t > usize::MAX as i128 {
+                        return e();
+                    }
+                    return Ok(Simple::Ok(Flow::Jump(t as usize)));
+                }
+                // condition 0: no jump, whatever the distance (a zero distance only matters for a taken jump)
+            }
+            MOp::PNCIF => {
+                if bool_word(pop(s)?)? {
+                    return e();
+                }
+            }
+            // ---------------- Memory ----------------
+            MOp::ALOC => {
+                let n = to_len(pop(s)?)?;
+                let old = st.memory.len();
+                if old.checked_add(n).ok_or(ErrClass::Other)? > M {
+                    return e();
+                }
+                st.memory.resize(old + n, 0);
+                push(s, old as i64)?;
+            }
+            MOp::FREE => {
+                let n = to_len(pop(s)?)?;
+                if n > st.memory.len() {
+                    return e();
+                }
+                st.memory.truncate(n);
+            }
+            MOp::LOD => {
+                let i = to_len(pop(s)?)?;
+                let Some(w) = st.memory.get(i).copied() else { return e() };
+                push(s, w)?;
+            }
+            MOp::STO => {
+                let i = pop(s)?;
+                let v = pop(s)?;
+                let i = to_len(i)?;
+                let Some(slot) = st.memory.get_mut(i) else { return e() };
+                *slot = v;
+            }
+            MOp::LODR => {
+                let n = pop(s)?;
+                let i = pop(s)?;
+                let (n, i) = (to_len(n)?, to_len(i)?);
+                let end = i.checked_add(n).ok_or(ErrClass::Other)?;
+                if end > st.memory.len() {
+                    return e();
+                }
+                let ws = st.memory[i..end].to_vec();
+                push_all(s, &ws)?;
+            }
+            MOp::STOR => {
+                let i = pop(s)?;
+                let n = to_len(pop(s)?)?;
+                let ws = pop_n(s, n)?;
+                let i = to_len(i)?;
+                let end = i.checked_add(n).ok_or(ErrClass::Other)?;
+                if end > st.memory.len() {
+                    return e();
+                }
+                st.memory[i..end].copy_from_slice(&ws);
+            }
+            MOp::LODP => {
+                let Some(pm) = pmem else { return e() };
+                let i = to_len(pop(s)?)?;
+                let Some(w) = pm.get(i).copied() else { return e() };
+                push(s, w)?;
+            }
+            MOp::LODPR => {
+                let Some(pm) = pmem else { return e() };
+                let n = pop(s)?;
+                let i = pop(s)?;
+                let (n, i) = (to_len(n)?, to_len(i)?);
+                let end = i.checked_add(n).ok_or(ErrClass::Other)?;
+                if end > pm.len() {
+                    return e();
+                }
+                push_all(s, &pm[i..end])?;
+            }
+            // ---------------- StateRead ----------------
+            MOp::KRNG | MOp::KREX | MOp::PKRNG | MOp::PKREX => {
+                let addr = to_len(pop(s)?)?;
+                let count = to_len(pop(s)?)?;
+                let klen = to_len(pop(s)?)?;
+                let key = pop_n(s, klen)?;
+                let ext = matches!(op, MOp::KREX | MOp::PKREX);
+                let post = matches!(op, MOp::PKRNG | MOp::PKREX);
+                let contract: [u8; 32] = if ext {
+                    let a = pop_n(s, 4)?;
+                    words_to_bytes(&a).try_into().unwrap()
+                } else {
+                    env.solutions[env.index].contract
+                };
+                let values = env
+                    .state
+                    .read(post, &contract, &key, count)
+                    .map_err(ErrClass::StateRead)?;
+                let k = values.len();
+                let mlen = st.memory.len();
+                // pair table [addr, addr+2k), values from addr+2k
+                let table_end = addr.checked_add(2 * k).ok_or(ErrClass::Other)?;
+                let mut a = table_end;
+                // Everything must fit the *current* memory.
+                if k > 0 && table_end > mlen {
+                    return e();
+                }
+                let mut writes: Vec<(usize, Vec<i64>)> = Vec::new();
+                for (i, v) in values.iter().enumerate() {
+                    let end = a.checked_add(v.len()).ok_or(ErrClass::Other)?;
+                    if end > mlen {
+                        return e();
+                    }
+                    writes.push((addr + 2 * i, vec![a as i64, v.len() as i64]));
+                    writes.push((a, v.clone()));
+                    a = end;
+                }
+                for (at, ws) in writes {
+                    st.memory[at..at + ws.len()].copy_from_slice(&ws);
+                }
+            }
+            MOp::COM | MOp::COME => unreachable!("handled by the run loop"),
+        }
+        next
+    }
+}
+
+/// Convenience: run a program from a state with cost 1 and no limit.
+pub fn run_simple(
+    prog: &[MOp],
+    st: MState,
+    solutions: &[MSolution],
+    index: usize,
+    state: &dyn ModelState,
+    budget: u64,
+    breadth_cap: i64,
+) -> (RunResult, MState, u64) {
+    let cost = |_: &MOp| 1u64;
+    let env = Env {
+        solutions,
+        index,
+        state,
+        cost: &cost,
+        steps_left: Cell::new(budget),
+        breadth_cap,
+    };
+    let mut m = Machine::new(prog, st, &env, u64::MAX);
+    let r = m.run();
+    let total = m.executed_total;
+    (r, m.st, total)
+}
